@@ -42,7 +42,9 @@ type ckSite struct {
 	bad  []string
 }
 
-func (s *ckSite) fail(format string, a ...interface{}) { s.bad = append(s.bad, fmt.Sprintf(format, a...)) }
+func (s *ckSite) fail(format string, a ...interface{}) {
+	s.bad = append(s.bad, fmt.Sprintf(format, a...))
+}
 func (s *ckSite) done() bool {
 	s.x.Assert(s.site, len(s.bad) == 0, "%s", strings.Join(s.bad, "; "))
 	return len(s.bad) == 0
@@ -993,7 +995,10 @@ func init() {
 		// ---- SearchCache.Get / Put / Manager.Enable shapes the layer model mirrors -----------------------
 		{
 			s := &ckSite{x: x, site: "cachekey:SearchCache"}
-			type w struct{ recv, name string; want []string }
+			type w struct {
+				recv, name string
+				want       []string
+			}
 			for _, e := range []w{
 				{"SearchCache", "Get", []string{"if !sc.enabled {", "key := sc.generateCacheKey(query, options)", "sc.cache.Get(key)"}},
 				{"SearchCache", "Put", []string{"if !sc.enabled || len(results) == 0 {", "key := sc.generateCacheKey(query, options)", "copy(cachedResults, results)", "sc.cache.Put(key, cachedResults)"}},
